@@ -14,6 +14,14 @@ CHECKS = {
              'just-out-of-range values, all vN_M_P strings, in scalar/array/length-1/string conventions, compared bit for bit '
              'with the TLA+ Pack/Unpack; plus seeded random tuples judged by the spec. Joint variation of all fields is sampled, not exhaustive.',
         note='Trusted: TLC, the 20-line bit-set abstraction (int <-> set of bit positions). Values >= 2^31 are not representable in TLC and are not exercised.'),
+    'C07': dict(
+        category='model_checking', design='DESIGN.md section 4 C07',
+        technique='TLA+ state machine (Maskbits: Load/Flagval/Flagname/Flagexist over a cache) with 12 invariants model-checked by TLC; every TLC '
+                  'behaviour replayed against real .par files + sdss_flag*; recorded multi-load histories validated event by event by Trace_Maskbits',
+        text='Bounded-exhaustive over maskbits files (every injective assignment of 3 labels to bit positions incl. 0/31/32/62/63, second group, aliases, '
+             'row orders, case variants), every label subset/order/case, every value over defined+undefined bits, every existence query; load/reload histories; '
+             'plus seeded random files (up to 8 groups x 64 labels) whose real call histories TLC accepts or rejects action by action.',
+        note='Trusted: TLC, the .par renderer in c07.py, bit-set abstraction of uint64. File-side names upper case (as sdssMaskbits.par); repeated labels in one query not asserted.'),
     'C20': dict(
         category='fault_enumeration', design='DESIGN.md section 4 C20',
         technique='TLA+ state machine (EnvProtocol: save/mutate/steps-with-faults/restore) model-checked by TLC for every fault position and initial '
